@@ -1054,3 +1054,168 @@ Proof.
   intros ops X expr e He Ho Ht. apply in_map. unfold q_events. apply filter_In. split; auto.
   unfold sel_tab. apply andb_true_iff. split; [apply N.eqb_eq; exact Ho | apply mem_In; exact Ht].
 Qed.
+
+(* ====================================================================== *)
+(* Ingest-side routing: the stream id is injective on (org, index), hence an event ingested by X into t
+   is stored under (X, t). *)
+
+(* decimal printing *)
+Fixpoint undec_rev (l : list N) : N :=
+  match l with [] => 0 | d :: r => (d - 48) + 10 * undec_rev r end.
+
+Lemma undec_dec_rev fuel : forall n, n < 2 ^ N.of_nat fuel -> undec_rev (dec_rev fuel n) = n.
+Proof.
+  induction fuel as [|f IH]; intros n H.
+  - cbn in H. assert (n = 0) by lia. subst. reflexivity.
+  - cbn [dec_rev]. destruct (n =? 0) eqn:E.
+    + apply N.eqb_eq in E. subst. reflexivity.
+    + cbn [undec_rev]. rewrite IH.
+      * pose proof (N.div_mod' n 10). pose proof (N.mod_lt n 10). lia.
+      * rewrite Nat2N.inj_succ, N.pow_succ_r' in H.
+        apply N.eqb_neq in E. assert (n / 10 <= n / 2) by (apply N.div_le_compat_l; lia).
+        assert (n / 2 < 2 ^ N.of_nat f) by (apply N.div_lt_upper_bound; lia). lia.
+Qed.
+
+Lemma dec_rev_digits fuel : forall n d, In d (dec_rev fuel n) -> 48 <= d <= 57.
+Proof.
+  induction fuel as [|f IH]; intros n d H; cbn [dec_rev] in H; [contradiction|].
+  destruct (n =? 0); [contradiction|]. destruct H as [H|H]; [|eapply IH; eauto].
+  pose proof (N.mod_lt n 10). lia.
+Qed.
+
+Lemma dec_digits n d : In d (dec n) -> 48 <= d <= 57.
+Proof.
+  unfold dec. destruct (n =? 0).
+  - intros [H|[]]. lia.
+  - intros H. apply in_rev in H. eapply dec_rev_digits; eauto.
+Qed.
+
+Definition undec (l : list N) : N := undec_rev (rev l).
+
+Lemma undec_dec n : undec (dec n) = n.
+Proof.
+  unfold undec, dec. destruct (n =? 0) eqn:E.
+  - apply N.eqb_eq in E. subst. reflexivity.
+  - rewrite rev_involutive. apply undec_dec_rev.
+    apply N.eqb_neq in E. rewrite Nat2N.inj_succ, N2Nat.id.
+    apply N.log2_spec. lia.
+Qed.
+
+Lemma dec_inj a b : dec a = dec b -> a = b.
+Proof. intros H. rewrite <- (undec_dec a), <- (undec_dec b), H. reflexivity. Qed.
+
+(* a separator that occurs in neither prefix splits uniquely *)
+Lemma split_at_sep (c : N) : forall l1 l2 r1 r2,
+  ~ In c l1 -> ~ In c l2 -> l1 ++ c :: r1 = l2 ++ c :: r2 -> l1 = l2 /\ r1 = r2.
+Proof.
+  induction l1 as [|x l1 IH]; intros [|y l2] r1 r2 H1 H2 E; cbn in E.
+  - inversion E. auto.
+  - inversion E; subst. exfalso. apply H2. left. reflexivity.
+  - inversion E; subst. exfalso. apply H1. left. reflexivity.
+  - inversion E; subst. destruct (IH l2 r1 r2) as [A B]; auto.
+    + intros Hc. apply H1. right. exact Hc.
+    + intros Hc. apply H2. right. exact Hc.
+    + subst. auto.
+Qed.
+
+Lemma dash_not_in_dec n : ~ In c_dash (dec n).
+Proof. intros H. apply dec_digits in H. unfold c_dash in H. lia. Qed.
+
+(* the model's segstore key is injective on (org, index) *)
+Theorem stream_key_inj : forall X t Y u, stream_key X t = stream_key Y u -> X = Y /\ t = u.
+Proof.
+  intros X t Y u E. unfold stream_key in E.
+  destruct (split_at_sep c_dash _ _ _ _ (dash_not_in_dec X) (dash_not_in_dec Y) E) as [A B].
+  split; [apply dec_inj; exact A | exact B].
+Qed.
+
+(* the real formula "<shard>-<org>-<hash(index)>": injective in the org for any hash function, and in
+   (org, index) up to collisions of the hash on the index name *)
+Section RealStreamId.
+  Variable h : name -> N.       (* xxhash.Sum64String *)
+
+  Theorem sid_str_inj : forall X t Y u, sid_str h X t = sid_str h Y u -> X = Y /\ h t = h u.
+  Proof.
+    intros X t Y u E. unfold sid_str in E. cbn [app] in E. inversion E as [E'].
+    destruct (split_at_sep c_dash _ _ _ _ (dash_not_in_dec X) (dash_not_in_dec Y) E') as [A B].
+    split; apply dec_inj; assumption.
+  Qed.
+
+  Corollary sid_str_inj_pairs : forall X t Y u,
+    (h t = h u -> t = u) -> sid_str h X t = sid_str h Y u -> X = Y /\ t = u.
+  Proof. intros X t Y u Hc E. destruct (sid_str_inj X t Y u E). auto. Qed.
+End RealStreamId.
+
+(* seeded/C13c: without the separator org 12 / "logs" and org 1 / "2logs" get the same key *)
+Theorem concat_key_refuted :
+  exists X t Y u, (X, t) <> (Y, u) /\ concat_key X t = concat_key Y u.
+Proof.
+  exists 12, [108;111;103;115], 1, [50;108;111;103;115]. split; [discriminate | vm_compute; reflexivity].
+Qed.
+
+(* ---- routing refinement ---- *)
+Definition stores_ok (st : stores) : Prop :=
+  forall k tgt, In (k, tgt) st -> k = stream_key (fst tgt) (snd tgt).
+
+Lemma route_direct st X t : stores_ok st -> route st (stream_key X t) (X, t) = (X, t).
+Proof.
+  intros H. unfold route. destruct (find _ st) as [[k tgt]|] eqn:F; auto.
+  apply find_some in F. destruct F as [Hin Hk]. cbn [fst] in Hk. apply name_eqb_eq in Hk.
+  specialize (H k tgt Hin). rewrite H in Hk. apply stream_key_inj in Hk. destruct Hk as [A B].
+  destruct tgt as [o u]. cbn in *. subst. reflexivity.
+Qed.
+
+Lemma rstep_direct s st o : stores_ok st ->
+  fst (fst (rstep (s, st) o)) = fst (step s o) /\
+  snd (rstep (s, st) o) = snd (step s o) /\
+  stores_ok (snd (fst (rstep (s, st) o))).
+Proof.
+  intros H. unfold rstep, rstep_with.
+  destruct o; try (destruct (step s _) as [s' x] eqn:E; cbn [fst snd]; rewrite ?E; auto; fail).
+  - (* Ingest *)
+    destruct ids as [|i0 ids0]; [cbn; auto|].
+    rewrite (route_direct st org (resolve s org idx) H). cbn [fst snd step]. repeat split.
+    destruct (has_key st (stream_key org (resolve s org idx))); auto.
+    intros k tgt Hin. apply in_app_or in Hin. destruct Hin as [Hin|[Hin|[]]]; auto.
+    inversion Hin; subst. reflexivity.
+  - (* Delete *)
+    destruct (step s (Delete org expr)) as [s' x] eqn:E. cbn [fst snd]. repeat split.
+    intros k tgt Hin. apply filter_In in Hin. apply H. tauto.
+  - (* Restart *)
+    destruct (step s Restart) as [s' x] eqn:E. cbn [fst snd]. repeat split.
+    intros k tgt [].
+Qed.
+
+Lemma routs_direct ops : forall s st, stores_ok st ->
+  routs_from (s, st) ops = outs_from s ops /\
+  fst (fold_left (fun rs o => fst (rstep rs o)) ops (s, st)) = run_from s ops.
+Proof.
+  induction ops as [|o r IH]; intros s st H; [split; reflexivity|].
+  destruct (rstep_direct s st o H) as (A & B & C).
+  unfold routs_from, run_from in *. cbn [routs_with outs_from fold_left].
+  change (rstep_with stream_key) with rstep.
+  destruct (rstep (s, st) o) as [[s1 st1] x1]. cbn [fst snd] in *.
+  destruct (step s o) as [s2 x2]. cbn [fst snd] in *. subst s2 x2.
+  destruct (IH s1 st1 C) as [I1 I2]. split.
+  - f_equal. exact I1.
+  - exact I2.
+Qed.
+
+(* for ALL op sequences the routed semantics (what the code does) and the direct one coincide:
+   every theorem about [run] / [outs_from] / [obs_of] holds for the routed model *)
+Theorem routing_is_direct : forall ops,
+  routs_from (init, []) ops = outs_from init ops /\ fst (rrun ops) = run ops.
+Proof.
+  intros ops. apply (routs_direct ops init []). intros k tgt [].
+Qed.
+
+(* with the separator-less key of seeded/C13c the routed model leaks: org 12 reads org 1's event *)
+Theorem concat_routing_refuted :
+  exists ops X i, In i (match last (routs_with concat_key (init, []) ops) ONone with OIds l => l | _ => [] end) /\
+                  ~ ingested ops X i /\ last ops Rotate = QSearch X [108;111;103;115].
+Proof.
+  exists [Ingest 12 [108;111;103;115] [1]; Ingest 1 [50;108;111;103;115] [2]; QSearch 12 [108;111;103;115]], 12, 2.
+  split; [vm_compute; tauto|]. split; [|reflexivity].
+  intros (n & ids & Hin & Hi). cbn in Hin. destruct Hin as [E|[E|[E|[]]]]; inversion E; subst.
+  cbn in Hi. destruct Hi as [Hi|[]]. discriminate.
+Qed.
